@@ -210,6 +210,13 @@ func (g *rig) handlePeer(conn net.Conn) {
 		reject()
 		return
 	}
+	if strings.HasPrefix(syncReq.ReaderID, "slow-") {
+		// network condition of the deliberately slow reader: a small send buffer, so
+		// that the writer's sends to it really wait for the peer
+		if tc, ok := conn.(*net.TCPConn); ok {
+			_ = tc.SetWriteBuffer(slowBuf())
+		}
+	}
 	reader, err := g.sender.PrepareReader(conn, syncReq.ReaderID, syncReq.Nonce, syncReq.LastKnownSequence)
 	if err != nil {
 		g.handshakesBad.Add(1)
@@ -249,12 +256,12 @@ func (g *rig) close() {
 	}
 }
 
-func newReceiver(id, addr string, h replication.IngestHandler, lg zerolog.Logger) *replication.Receiver {
+func newReceiver(id, addr string, h replication.IngestHandler, lg zerolog.Logger, reconnect time.Duration) *replication.Receiver {
 	return replication.NewReceiver(&replication.ReceiverConfig{
 		ReaderID:          id,
 		WriterAddr:        addr,
 		IngestHandler:     h,
-		ReconnectInterval: 25 * time.Millisecond,
+		ReconnectInterval: reconnect,
 		AckInterval:       10 * time.Millisecond,
 		Logger:            lg,
 		SharedSecret:      sharedSecret,
@@ -282,3 +289,55 @@ func envelope(db string, payload []byte) []byte {
 	out = append(out, db...)
 	return append(out, payload...)
 }
+
+// rawHandshake performs the reader side of the replication handshake on a plain
+// TCP connection to the acceptor (what Receiver.connect does) and returns the
+// connection positioned at the start of the entry stream.
+func rawHandshake(addr, id string, lastSeq uint64, rcvBuf int) (net.Conn, error) {
+	conn, err := net.DialTimeout("tcp", addr, 5*time.Second)
+	if err != nil {
+		return nil, err
+	}
+	if tc, ok := conn.(*net.TCPConn); ok && rcvBuf > 0 {
+		_ = tc.SetReadBuffer(rcvBuf)
+	}
+	nonce, err := security.GenerateNonce()
+	if err != nil {
+		conn.Close()
+		return nil, err
+	}
+	ts := time.Now().Unix()
+	req := &protocol.ReplicateSync{ReaderID: id, LastKnownSequence: lastSeq, Nonce: nonce, ClusterName: clusterName, Timestamp: ts,
+		HMAC: security.ComputeReplicateSyncHMAC(sharedSecret, nonce, id, clusterName, lastSeq, ts)}
+	if err := protocol.SendMessage(conn, &protocol.Message{Type: protocol.MsgReplicateSync, Payload: req}, 5*time.Second); err != nil {
+		conn.Close()
+		return nil, err
+	}
+	msg, err := protocol.ReceiveMessage(conn, 5*time.Second)
+	if err != nil {
+		conn.Close()
+		return nil, err
+	}
+	ack, ok := msg.Payload.(*protocol.ReplicateSyncAck)
+	if msg.Type != protocol.MsgReplicateSyncAck || !ok || ack.Error != "" {
+		conn.Close()
+		return nil, fmt.Errorf("handshake refused")
+	}
+	return conn, nil
+}
+
+// attached reports whether the writer currently lists a reader id.
+func (g *rig) attached(id string) bool {
+	rs, _ := g.sender.Stats()["readers"].([]map[string]interface{})
+	for _, r := range rs {
+		if r["reader_id"] == id {
+			return true
+		}
+	}
+	return false
+}
+
+// slowBuf is the socket buffer size (both ends) of the deliberately slow raw
+// reader: small enough that the writer's sends to it wait for the peer, large
+// enough to stay clear of zero-window stalls (4 KiB made the stream crawl).
+func slowBuf() int { return 32768 }
